@@ -59,17 +59,26 @@ type lbsDrv struct {
 	dirty  map[int64]bool
 	bound  map[int64]bool
 	closed bool
+	// round 5: timed = the case has a third cfg entry (initial bitrate; 0 = the high default): settles
+	// are recorded as ticks (opcode 9), eff = p.targetBitrate as stored, stuck = a settle timed out
+	timed bool
+	eff   int64
+	stuck bool
 }
 
-func newLbsDrv(mode, via int64) *lbsDrv {
+func newLbsDrv(mode, via int64, timed bool, initial int64) *lbsDrv {
 	// the pacer logs every failed write at error level through the default logger factory (scope "pacer")
 	quietOnce.Do(func() { _ = os.Setenv("PION_LOG_DISABLE", "pacer") })
 	rate := 0
 	if mode == 1 {
 		rate = 2000000000
 	}
+	if timed && initial != 0 {
+		rate = int(initial)
+	}
 	d := &lbsDrv{
 		w: map[int64]interceptor.RTPWriter{}, calls: map[int64]int64{}, dirty: map[int64]bool{}, bound: map[int64]bool{},
+		timed: timed, eff: int64(rate),
 	}
 	d.p = gcc.NewLeakyBucketPacer(rate)
 	if via == 1 {
@@ -103,11 +112,47 @@ func (d *lbsDrv) writer(ssrc int64, fails bool) interceptor.RTPWriter {
 }
 
 func (d *lbsDrv) settle() []entry {
+	if d.timed {
+		return d.settleTimed()
+	}
 	for i := 0; i < settleMax && gcc.C12QueueLen(d.p) > 0; i++ {
 		time.Sleep(settleStep)
 	}
+	time.Sleep(settleStep) // Run pops a packet before it calls the writer: let that call finish
 
 	return []entry{{Op: 2, Args: []int64{bigBudget}}}
+}
+
+// settleTimed: the budget of a tick is (ms since the last written packet) * targetBitrate / 8000
+// bytes, so a queued packet leaves at the latest ceil(8000/targetBitrate) ms (+ one tick) after the
+// previous one, whatever its size. The trace records that time for the k packets queued now, in
+// ticks of 5 ms (opcode 9); the driver waits until the queue is empty - at least 2 s and at least
+// four times the recorded time, so that a loaded machine cannot raise a false alarm. Once a settle
+// of this history has timed out (already a violation) the later ones only wait the recorded time.
+func (d *lbsDrv) settleTimed() []entry {
+	k := int64(gcc.C12QueueLen(d.p))
+	eff := d.eff
+	if eff < 1 {
+		eff = 1
+	}
+	perTicks := (8000+eff-1)/eff/5 + 2 // ticks per packet, rounded up, one tick of slack
+	ticks := k*perTicks + 2
+	limit := 4*ticks + 100
+	if limit < settleMax {
+		limit = settleMax
+	}
+	if d.stuck {
+		limit = ticks
+	}
+	for i := int64(0); i < limit && gcc.C12QueueLen(d.p) > 0; i++ {
+		time.Sleep(settleStep)
+	}
+	if gcc.C12QueueLen(d.p) > 0 {
+		d.stuck = true
+	}
+	time.Sleep(settleStep) // Run pops a packet before it calls the writer: let that call finish
+
+	return []entry{{Op: 9, Args: []int64{ticks}}}
 }
 
 func (d *lbsDrv) apply(o opx) []entry {
@@ -151,6 +196,9 @@ func (d *lbsDrv) apply(o opx) []entry {
 		}
 		d.bound[ssrc] = false
 		d.dirty[ssrc] = true
+	case 8: // SetTargetBitrate r: targetBitrate = int(1.5 * float64(r))
+		d.p.SetTargetBitrate(int(o.Args[0]))
+		d.eff = int64(1.5 * float64(o.Args[0]))
 	case opSettle:
 		if d.closed {
 			return nil
